@@ -162,6 +162,36 @@ def index_update(u: U):
     u.check("C14.index.prefix_refile", o.ok and log == want,
             "each resource: unindexed under the OLD canonical, prefixed, indexed under the NEW canonical")
 
+    # a domain-matched sub-application among the resources: register_resource does not index those (they are kept
+    # in _matched_sub_app_resources), so a prefix change must not try to unindex / index them either
+    class _M(_R):
+        pass
+
+    class _Router2(_Router):
+        def __init__(self):
+            self.rs = [_R("/a"), _M("example.com")]
+
+        def unindex_resource(self, r):
+            u.check("C14.index.unindex_only_indexed", not isinstance(r, _M),
+                    "unindex_resource is called only for resources that are in the index (a matched sub-app resource is "
+                    "not: removing it raises KeyError and a prefixed app containing add_domain() cannot be mounted)")
+            log.append(("unindex", r, r.canonical))
+
+        def index_resource(self, r):
+            u.check("C14.index.matched_never_indexed", not isinstance(r, _M),
+                    "a matched sub-app resource is never put into the path index")
+            log.append(("index", r, r.canonical))
+
+    class _App2:
+        router = _Router2()
+
+    log.clear()
+    sub2 = u.obj("PrefixedSubAppResource", {"_app": _App2()}, {}, shared=False)
+    h2 = u.load(MOD, "PrefixedSubAppResource._add_prefix_to_resources", globals={"MatchedSubAppResource": _M})
+    o = u.call(h2, sub2, "/pfx")
+    u.check("C14.index.matched_still_prefixed", o.ok and ("add_prefix", _App2.router.rs[1], "/pfx") in log,
+            "... but it still receives the prefix (its own sub-application's resources are re-filed by its add_prefix)")
+
 
 # ---------------------------------------------------------------------------------------------------------------
 # 2. resolve()
